@@ -852,7 +852,7 @@ Qed.
 
 Lemma Inv_post : forall c r, Inv (fst r) -> Inv (fst (post c r)).
 Proof.
-  intros c r H. unfold post. destruct (fx_xcache c); auto. simpl.
+  intros c r H. unfold post. simpl.
   unfold Inv, inval_all in *. simpl.
   apply (inv_clear (fun _ => true) _ _ _ _ (s_fl (fst r)) []); auto.
 Qed.
